@@ -3,12 +3,12 @@
 //   A <source line>   assemble PRELUDE + line with the real Preprocessor; report what the line emitted
 //   I <emitted line>  execute the line with the real Interpreter on a fresh VM, context = prelude's tables
 //   D <data line>     load the line with the real DataParser on a fresh VM
-// PRELUDE defines: data labels dl (offset 0, byte) and dw_ (offset 1, word), code label cl, procedure pr.
+// PRELUDE defines: data labels vb (offset 0, byte) and vw (offset 1, word), code label lc, procedure pr.
 use emulator_8086_lib::{DataParser, Interpreter, InterpreterContext, Preprocessor, PreprocessorContext, PreprocessorOutput, VM};
 use std::io::{BufRead, Write};
 
-const PRE_DATA: &str = "dl: DB 5\ndw_: DW 7\n";
-const PRE_CODE: &str = "def pr { hlt }\ncl: hlt\n";
+const PRE_DATA: &str = "vb: DB 5\nvw: DW 7\n";
+const PRE_CODE: &str = "def pr { hlt }\nlc: hlt\n";
 
 fn assemble(line: &str, is_data: bool) -> Result<(PreprocessorContext, PreprocessorOutput, usize, usize), String> {
     let pre = if is_data { PRE_DATA.to_string() } else { format!("{}{}", PRE_DATA, PRE_CODE) };
